@@ -18,7 +18,7 @@ LEVEL = "model_checking"
 
 
 def slim_res(r):
-    return dict(replies=r["replies"], trees=r["trees"], outs=r["outs"], panic=r.get("panic", ""))
+    return dict(replies=r["replies"], trees=r["trees"], outs=r["outs"], panic=r.get("panic", ""), refs=r.get("refs") or [])
 
 
 def validate(ctx, items):
